@@ -188,7 +188,7 @@ DE(c) == [v |-> ToSet(c.v), x |-> c.x]
 DCs(cs) == [k \in 1..Len(cs) |-> DC(cs[k])]
 DEs(cs) == [k \in 1..Len(cs) |-> DE(cs[k])]
 CubeOK(j, exp) == DC(j) = exp /\ j.z = (exp = CubeZero)
-FormFn(k, n, cs) == CASE k = "sop" -> SopFn(n, DCs(cs)) [] k = "esop" -> EsopFn(n, DCs(cs)) [] k = "soes" -> SoesFn(n, DEs(cs))
+FormFn(k, n, cs) == CASE k = "sop" -> SopFnX(n, DCs(cs)) [] k = "esop" -> EsopFnX(n, DCs(cs)) [] k = "soes" -> SoesFn(n, DEs(cs))
 TwoKindStrict(k, op) ==
   CASE MODE = "C12" -> k = "cube" /\ op \notin {"t_text", "t_alltext"}
     [] MODE = "C13" -> k \in {"ecube", "soes"} /\ op \notin {"t_text", "t_alltext"}
